@@ -25,7 +25,8 @@ class Gen:
         gt = r.choice(['', ' gradientTransform="translate(1,2)"', ' gradientTransform="scale(2) translate(1 0)"', ' gradientTransform="rotate(45)"'])
         spread = r.choice(['', ' spreadMethod="reflect"', ' spreadMethod="repeat"'])
         href = ''
-        stops = '<stop offset="0" stop-color="red"/><stop offset="1" stop-color="blue" stop-opacity="0.5"/>'
+        sid = (lambda k: f' id="{gid}s{k}"') if self.shared_ids and r.random() < 0.4 else (lambda k: '')
+        stops = f'<stop offset="0" stop-color="red"{sid(0)}/><stop offset="1" stop-color="blue" stop-opacity="0.5"{sid(1)}/>'
         if self.grad_ids and r.random() < 0.35:
             href = f' xlink:href="#{r.choice(self.grad_ids)}"'
             if r.random() < 0.6: stops = ''
@@ -59,10 +60,10 @@ class Gen:
             a += f' stroke="{r.choice(COL)}" stroke-width="{r.choice([1, 2, 0.5])}"'
             if r.random() < 0.3: a += f' stroke-linecap="{r.choice(["round", "square"])}" stroke-linejoin="{r.choice(["round", "bevel"])}"'
             if r.random() < 0.2: a += f' stroke-dasharray="{r.choice(["2", "3,1", "1 2 3"])}"'
-        if r.random() < 0.2: a += f' opacity="{r.choice([0.5, 0.25, 0.75, 0, 1])}"'
+        if r.random() < 0.25: a += f' opacity="{r.choice([0.5, 0.25, 0.75, 0, 1, 0.7, 0.3, 0])}"'
         if r.random() < 0.15: a += f' fill-opacity="{r.choice([0.5, 0.25])}"'
         if r.random() < 0.1: a += ' fill-rule="evenodd"'
-        if r.random() < 0.15: a += f' style="{r.choice(["fill:red", "opacity:0.5", "stroke:none;fill:blue", "display:none", "fill-opacity:0.5;bogus:1"])}"'
+        if r.random() < 0.2: a += f' style="{r.choice(["fill:red", "opacity:0.5", "stroke:none;fill:blue", "display:none", "fill-opacity:0.5;bogus:1", "fill:green;fill:purple", "opacity:1;fill:orange"])}"'
         if r.random() < 0.05: a += ' display="none"'
         if r.random() < self.p_clip: a += f' clip-path="url(#{self.clip() if not self.clip_ids or r.random() < 0.5 else r.choice(self.clip_ids)})"'
         if self.shared_ids and r.random() < 0.3: a += f' id="{self.nid("s")}"'
@@ -102,8 +103,9 @@ class Gen:
             kids += self.node(depth + 1)
         a = ''
         if r.random() < 0.5: a += self.tf()
-        if r.random() < 0.3: a += f' opacity="{r.choice([0.5, 0.25, 1, 0])}"'
+        if r.random() < 0.4: a += f' opacity="{r.choice([0.5, 0.25, 1, 0, 0.7, 0.3, 0.7])}"'
         if r.random() < 0.3: a += f' fill="{r.choice(COL)}"'
+        if r.random() < 0.1: a += f' style="fill:{r.choice(COL)};opacity:{r.choice([0.5, 1])}"'
         if r.random() < self.p_clip * 0.5: a += f' clip-path="url(#{self.clip()})"'
         return f'<g{a}>{kids}</g>'
 
